@@ -49,7 +49,10 @@ namespace
 {
 
 constexpr int kFastMs = 200;   // pacing bound of the design
-constexpr int kSlowMs = 5000;  // beyond this a datagram counts as lost (never a failure)
+constexpr int kSlowMs = 3000;  // full pacing bound: beyond this much OBSERVED waiting a datagram counts as lost (never a failure by itself)
+constexpr int kCapGraceMs = 3; // datagram of a peer without receiving session while the engine is at maxSessions: refusal is documented, do not wait
+constexpr int kSliceMs = 50;   // waiting is accounted in observed slices, so a frozen process/VM cannot fake a missed datagram
+constexpr int kSilenceK = 4;   // this many consecutive paced datagrams missed by an OPEN receiving session = silenced
 constexpr int kSetupMs = 10000;
 
 inline std::uint64_t splitmix(std::uint64_t &x)
@@ -96,6 +99,7 @@ struct Plan
   bool et = true, batching = false;
   std::size_t readChunk = 65536;
   std::size_t maxWq = 1024;
+  std::size_t maxSessions = 0; // UDP session cap (0 = unlimited)
   unsigned nListeners = 1, nPeers = 1;
   bool idle = false; // idleTimeout 1 s / gcInterval 1 s
   std::uint32_t salt = 0;
@@ -105,7 +109,7 @@ struct Plan
 std::string describe(const Plan &p)
 {
   pbt::Fmt f;
-  f << "UDP " << (p.et ? "ET" : "LT") << (p.batching ? " batching" : "") << " readChunk=" << p.readChunk << " maxWq=" << p.maxWq
+  f << "UDP " << (p.et ? "ET" : "LT") << (p.batching ? " batching" : "") << " readChunk=" << p.readChunk << " maxWq=" << p.maxWq << " maxSessions=" << p.maxSessions
     << " listeners=" << p.nListeners << " peers=" << p.nPeers << (p.idle ? " idleTimeout=1s" : "") << " salt=" << p.salt << " ops=[";
   static const char *nm[] = {"dgram", "dgramConn", "send", "via", "connect", "close", "burst", "eagain", "idle"};
   for (std::size_t i = 0; i < p.ops.size(); ++i)
@@ -233,10 +237,14 @@ struct Exec
     net::SessionId sid = 0; // app send: session it was issued on
     std::vector<std::uint8_t> payload;
     int delivered = 0;
+    bool capMaybe = false; // issued while the engine was at maxSessions and no open session was receiving this source: refusal allowed
     Clock::time_point at;
   };
   std::vector<Sent> sent; // index = stamp
-  std::map<std::pair<Addr, std::string>, net::SessionId> lastRecv; // (source, destination socket) -> session
+  using Key = std::pair<Addr, std::string>;
+  std::map<Key, net::SessionId> lastRecv; // (source, destination socket) -> session
+  std::map<Key, int> missed;               // consecutive paced datagrams of that key that did not arrive although lastRecv[key] is open
+  std::size_t capRefused = 0, silencedProbes = 0;
 
   // statistics for labels / non-trivial rule
   std::size_t lostByClose = 0, fullTimeouts = 0, foreignSeen = 0;
@@ -245,6 +253,7 @@ struct Exec
   std::map<Addr, int> dgramsSeenFrom;           // for the "close of another session between two datagrams" rule
   std::map<Addr, bool> closeSinceLastDgram;
   bool stopCase = false;
+  bool inBurst = false; // operations are being issued without waiting for their effect
 
   Exec(const Plan &pl, pbt::Case &cs) : p(pl), c(cs) {}
 
@@ -261,7 +270,7 @@ struct Exec
     cfg.ioReadChunk = p.readChunk;
     cfg.maxWriteQueue = p.maxWq;
     cfg.closeOnBackpressure = true;
-    cfg.maxSessions = 0;
+    cfg.maxSessions = p.maxSessions;
     if (p.idle)
     {
       cfg.idleTimeout = std::chrono::seconds(1);
@@ -482,6 +491,7 @@ struct Exec
       for (auto &kv : lastRecv)
         if (kv.first.first == src && kv.first.second != d.dest && kv.second == e.sid) crossListener = true;
       lastRecv[key] = e.sid;
+      missed[key] = 0;
       s.fresh = false;
       s.everReceived = true;
       if (dgramsSeenFrom[src]++ >= 1 && closeSinceLastDgram[src]) closeBetween = true;
@@ -586,38 +596,74 @@ struct Exec
     return it != sess.end() && (it->second.closedInLog || it->second.closeIssued);
   }
 
-  bool waitDelivered(const std::vector<unsigned> &stamps)
+  // sessions that occupy a slot of the engine's session table according to the log
+  std::size_t openCount() const
+  {
+    std::size_t n = 0;
+    for (auto &kv : sess)
+      if (kv.second.announced && !kv.second.closedInLog) ++n;
+    return n;
+  }
+  // the open session that received the previous datagram of this (source, destination), or 0
+  net::SessionId receivingSession(const Key &k) const
+  {
+    auto it = lastRecv.find(k);
+    if (it == lastRecv.end()) return 0;
+    auto st = sess.find(it->second);
+    if (st == sess.end() || st->second.closedInLog || st->second.closeIssued) return 0;
+    return it->second;
+  }
+  Key keyOf(const Sent &d) const { return Key(peers[d.peer].addr, d.dest); }
+  // maxSessions: "new peers beyond the cap are refused" is the documented behaviour of the cap.
+  // A datagram is only OWED when an open session is already receiving that source.
+  bool capMayRefuse(const Key &k) const
+  {
+    if (!p.maxSessions || receivingSession(k) != 0) return false;
+    if (inBurst) return true; // inside a burst connects/closes race with the datagram for the free slots
+    // datagrams still in flight from sources without a receiving session will occupy slots too
+    std::size_t inFlightNew = 0;
+    for (auto &d : sent)
+      if (d.toIora && d.delivered == 0 && d.dest[0] == 'L' && receivingSession(keyOf(d)) == 0) ++inFlightNew;
+    return openCount() + inFlightNew >= p.maxSessions;
+  }
+
+  // `paced`: the stamps were issued one per (source,destination) and nothing else was in flight,
+  // so a miss after the full pacing bound counts towards the 'silenced' oracle.
+  bool waitDelivered(const std::vector<unsigned> &stamps, bool paced = false)
   {
     auto t0 = Clock::now();
+    auto lastIter = t0;
+    std::int64_t observed = 0; // ms of waiting this thread has really witnessed (<= kSliceMs per iteration)
     bool wasSlow = false;
     for (;;)
     {
       processLog();
       drainPeers(-1, 0);
       if (c.failed()) return false;
-      bool all = true, allHopeless = true;
+      auto now = Clock::now();
+      observed += std::min<std::int64_t>(std::chrono::duration_cast<std::chrono::milliseconds>(now - lastIter).count(), kSliceMs);
+      lastIter = now;
+      bool all = true, needFull = false, needFast = false;
       int waitPeer = -1;
       for (unsigned st : stamps)
         if (sent[st].delivered == 0)
         {
           all = false;
-          if (!hopeless(sent[st])) allHopeless = false;
+          if (sent[st].capMaybe) { if (observed <= kCapGraceMs) needFast = true; }
+          else if (hopeless(sent[st])) { if (observed <= kFastMs) needFast = true; }
+          else needFull = true;
           if (!sent[st].toIora) waitPeer = sent[st].peer;
         }
       if (all) break;
-      auto el = msSince(t0);
-      if (el > kFastMs)
-      {
-        if (allHopeless) break;
-        wasSlow = true;
-      }
-      if (el > kSlowMs) break;
+      if (!needFull && !needFast) break;
+      if (needFull && observed > kFastMs) wasSlow = true;
+      if (observed > kSlowMs) break;
       if (waitPeer >= 0)
         drainPeers(waitPeer, 2);
       else
       {
         std::unique_lock<std::mutex> lk(log->mu);
-        if (logPos >= log->evs.size()) log->cv.wait_for(lk, std::chrono::milliseconds(5));
+        if (logPos >= log->evs.size()) log->cv.wait_for(lk, std::chrono::milliseconds(needFull ? 5 : 1));
       }
     }
     if (wasSlow) ++slow;
@@ -632,15 +678,61 @@ struct Exec
       if (sent[st].delivered == 0)
       {
         ok = false;
-        if (hopeless(sent[st])) ++lostByClose;
+        if (sent[st].capMaybe) ++capRefused;
+        else if (hopeless(sent[st])) ++lostByClose;
         else
         {
           if (sent[st].toIora) ++lost;
           else ++sendsLost;
+          if (sent[st].toIora && paced && receivingSession(keyOf(sent[st])) != 0)
+          {
+            // an open session that was receiving this source missed a paced datagram: one loss is
+            // allowed; go straight to the probe at the end of the history
+            ++missed[keyOf(sent[st])];
+            stopCase = true;
+          }
           if (++fullTimeouts >= 2) stopCase = true; // do not spend minutes on a case that keeps losing
         }
       }
     return ok;
+  }
+
+  // 'silenced' oracle (bounded wait): loss of single datagrams is allowed, but an open session that
+  // was receiving a source and now misses kSilenceK consecutive paced datagrams of it - each waited
+  // for the full pacing bound, no close reported - has been silenced.
+  void probeSilenced()
+  {
+    for (auto &kv : missed)
+    {
+      if (kv.second <= 0 || c.failed()) continue;
+      const Key k = kv.first;
+      int pi = peerIndexOf(k.first);
+      if (pi < 0) continue;
+      while (kv.second < kSilenceK && !c.failed())
+      {
+        processLog();
+        net::SessionId rs = receivingSession(k);
+        if (rs == 0) break; // closed meanwhile: nothing is owed any more
+        int st;
+        if (k.second[0] == 'L') st = issueDgram(pi, std::atoi(k.second.c_str() + 1), 3 + 16 * kv.second);
+        else st = issueDgramConn(rs, 3 + 16 * kv.second);
+        if (st < 0) break;
+        ++silencedProbes;
+        fullTimeouts = 0;
+        waitDelivered({static_cast<unsigned>(st)}, true); // a miss increments missed[k], an arrival resets it to 0
+        if (missed[k] == 0) break;
+      }
+      processLog();
+      net::SessionId rs = receivingSession(k);
+      if (!c.failed() && kv.second >= kSilenceK && rs != 0)
+      {
+        pbt::Fmt f;
+        f << "session " << rs << " is open (no onClose reported) and received the earlier datagrams of " << k.first.str() << " (to " << k.second << "), but the last "
+          << kv.second << " paced datagrams of that peer - each waited for " << kSlowMs << " ms - were not delivered on it or anywhere else; maxSessions=" << p.maxSessions
+          << ", open sessions=" << openCount();
+        c.failTimed("C06/open-session-silenced", f.str());
+      }
+    }
   }
 
   bool waitFor(const std::function<bool()> &pred, int ms)
@@ -669,6 +761,7 @@ struct Exec
     d.dest = "L" + std::to_string(li);
     d.payload = makeDatagram(p.salt, stamp, sizeOf(cls, cap()));
     d.at = Clock::now();
+    d.capMaybe = capMayRefuse(Key(peers[pi].addr, d.dest));
     sent.push_back(std::move(d));
     if (!rawpeer::udpSendTo(peers[pi].fd, lst[li].addr, sent[stamp].payload.data(), sent[stamp].payload.size()))
     {
@@ -735,10 +828,12 @@ struct Exec
     }
     std::vector<unsigned> pending; // stamps issued inside a burst
     int burstLeft = 0;
+    bool burstBatch = false; // the pending stamps were issued without waiting in between
     for (std::size_t oi = 0; oi < p.ops.size() && !c.failed() && !stopCase; ++oi)
     {
       const Op &o = p.ops[oi];
       int stamp = -1;
+      inBurst = burstLeft > 0;
       switch (o.kind)
       {
       case OpDgram: stamp = issueDgram(static_cast<int>(o.a % p.nPeers), static_cast<int>(o.b % p.nListeners), o.c); break;
@@ -818,7 +913,11 @@ struct Exec
         break;
       }
       case OpBurst:
-        if (burstLeft == 0) burstLeft = 2 + static_cast<int>(o.a % 4) + 1; // +1: decremented below for this op
+        if (burstLeft == 0)
+        {
+          burstLeft = 2 + static_cast<int>(o.a % 4) + 1; // +1: decremented below for this op
+          burstBatch = true;
+        }
         break;
       case OpAgain:
       {
@@ -841,7 +940,7 @@ struct Exec
               int s = issueDgram(static_cast<int>(pi), 0, 2 + 16 * round);
               if (s >= 0) st.push_back(static_cast<unsigned>(s));
             }
-          waitDelivered(st);
+          waitDelivered(st, true);
         }
         processLog();
         break;
@@ -853,8 +952,9 @@ struct Exec
       {
         // a datagram that does not arrive is legitimate ("at most one"); should it arrive later it
         // is judged by the same log-order oracle, so the history simply goes on
-        waitDelivered(pending);
+        waitDelivered(pending, !burstBatch);
         pending.clear();
+        burstBatch = false;
         // closes issued inside a burst
         for (auto &kv : sess)
           if (kv.second.closeIssued && !kv.second.closedInLog && !stopCase)
@@ -869,6 +969,7 @@ struct Exec
       }
     }
     if (!pending.empty() && !c.failed()) waitDelivered(pending);
+    if (!c.failed()) probeSilenced();
     // settle: late duplicates / misdirected datagrams
     if (!c.failed())
     {
@@ -894,6 +995,9 @@ struct Exec
       std::fprintf(stderr, "LOST%s in %s\n", l.c_str(), describe(p).c_str());
     }
     if (foreignSeen) c.label("foreign traffic on an ephemeral port ignored");
+    if (p.maxSessions) c.label("maxSessions: " + std::to_string(p.maxSessions));
+    if (capRefused) c.label("new peer refused at the session cap (documented, not flagged)");
+    if (silencedProbes) c.label("silence probe run after a missed paced datagram");
     if (lostByClose) c.label("datagram overtaken by the close of its own session (counted, not flagged)");
     if (lost) c.label("datagram to iora lost (counted, not flagged)");
     if (sendsLost) c.label("app send never arrived (counted, not flagged)");
@@ -924,6 +1028,7 @@ Plan drawPlan(pbt::Src &src, bool idle)
   p.batching = src.coin(1, 4);
   p.readChunk = src.oneOf<std::size_t>({65536, 65536, 65507, 2048, 1472});
   p.maxWq = src.oneOf<std::size_t>({1024, 1024, 1024, 2, 1});
+  p.maxSessions = src.oneOf<std::size_t>({0, 0, 0, 0, 1, 2, 2, 3, 3, 4});
   p.nListeners = static_cast<unsigned>(1 + src.weighted({3, 2}));
   p.nPeers = static_cast<unsigned>(1 + src.weighted({2, 3, 2, 2}));
   p.salt = static_cast<std::uint32_t>(src.range(0, 0x7fffffff));
@@ -1006,6 +1111,36 @@ PBT_REGRESSION(s4_idle_expiry_of_via_session_keeps_accepted_mapping)
   p.idle = true;
   p.salt = 7;
   p.ops = {Op{OpDgram, 0, 0, 3}, Op{OpVia, 0, 0, 0}, Op{OpIdle, 1, 0, 0}, Op{OpDgram, 0, 0, 3}};
+  Exec ex(p, c);
+  ex.run();
+}
+
+// maxSessions: at the cap a NEW peer may be refused, but the peers that already have an open session
+// must keep receiving (seeded change C06-B checked the cap before the peer lookup: every datagram
+// was shed once the table was full and the open sessions went silent without a close)
+PBT_REGRESSION(session_cap_does_not_silence_open_sessions)
+{
+  Plan p;
+  p.nListeners = 1;
+  p.nPeers = 2;
+  p.maxSessions = 2;
+  p.salt = 8;
+  p.ops = {Op{OpDgram, 0, 0, 3}, Op{OpDgram, 1, 0, 3}, Op{OpDgram, 0, 0, 5}, Op{OpDgram, 1, 0, 7}, Op{OpSend, 0, 0, 3}, Op{OpDgram, 0, 0, 9}};
+  Exec ex(p, c);
+  ex.run();
+}
+
+// the documented half of the cap: a third peer is refused (no accept, nothing flagged) and the two
+// existing sessions are unaffected; after a close the slot is free again
+PBT_REGRESSION(session_cap_refuses_new_peer_only)
+{
+  Plan p;
+  p.nListeners = 1;
+  p.nPeers = 3;
+  p.maxSessions = 2;
+  p.salt = 9;
+  p.ops = {Op{OpDgram, 0, 0, 3}, Op{OpDgram, 1, 0, 3}, Op{OpDgram, 2, 0, 3}, Op{OpDgram, 0, 0, 5}, Op{OpVia, 0, 2, 0}, Op{OpClose, 1, 0, 0},
+           Op{OpDgram, 2, 0, 3}, Op{OpDgram, 0, 0, 5}, Op{OpDgram, 2, 0, 6}};
   Exec ex(p, c);
   ex.run();
 }
